@@ -9,6 +9,10 @@ property's own predicates on the implementation's outputs):
   empi_seq       calc_empi_dist_sequence(s): exhaustive short data x request patterns, random long data, malformed stream
   flow           session histories (global seeding, unrelated draws, shared generators, int seeds) through data_generator,
                  Experiment, MultinomialDistribution and the four tomography classes vs the stream-dataflow model
+  exp_hist       ONE Experiment object used over a history: generate_* / calc_prob_dist interleaved with in-place replacement of
+                 list elements (experiment.states[0] = s), whole-list / schedule assignment, copy(), reset_seed_data: actual contents
+                 vs model, values bit-identical to the predicted draws FROM THE CURRENT CIRCUIT's distribution, no outcome of Born-rule
+                 probability 0 under the current circuit, seeded value = value of a fresh Experiment built from the current lists
   seed_types     direct predicates for reset_seed(z) (z = 0 included; fix C14-reset-seed-zero) and numpy-integer seeds (fix
                  C14-to-stream-numpy-integer-seed): function of the seed only, same as the int seed, members of a sequence advance
   chi2           (thorough tier, a TEST, not a proof obligation) fixed-seed chi-square of the two samplers
@@ -680,6 +684,71 @@ def make_call(h, obj, pds, gens, mdo):
     return do_call
 
 
+def cmp_call_rows(ctx, sub, site, i, sog, fn, out, rows, pds, oracle, mdl, case, feat):
+    """compare the value returned by one generate_* call with the draws the dataflow model predicts (oracle replay, bit-identical)
+    and evaluate the validity predicates; returns False after reporting a violation"""
+    got = norm_rows(fn, out)
+    if [len(r) for r in got] != [len(r) for r in rows]:
+        ctx.violation(sub, site, "shape", "step %d: output layout %s, model %s" % (i, [len(r) for r in got], [len(r) for r in rows]), case)
+        return False
+    # the oracle replays the predicted requests in the order the model says they are made (not the output order)
+    flat = [s for mr in rows for s in mr]
+    for s in sorted(flat, key=lambda x: x["pos"]):
+        s["val"] = oracle.draw(s["stream"], s["pos"], s["req"], pds)
+    for gr, mr in zip(got, rows):
+        for (gn, gv), s in zip(gr, mr):
+            val = s["val"]
+            rk, rn, rsz, rpd = s["req"]
+            p = pds[rpd]
+            if rk == 0:
+                rs = [float(x) for x in val]
+                exp = [int(x) for x in mdl.call("c14.gen_data", [len(rs)], [1e-13] + rs + [float(x) for x in p])]
+                ex_ok = exact_sums([float(x) for x in p])
+                bad = [j for j, (a, b) in enumerate(zip(gv, exp)) if a != b and (ex_ok or margin([float(x) for x in p], rs[j]) >= BAND)]
+                ok = len(gv) == len(exp) and not bad and gn == s["n"]
+                valid = all(0 <= d < len(p) and p[d] > 0 for d in gv)
+            elif rk == 1:
+                cnt = [int(x) for x in val]
+                exp = [float(Fraction(c, rn)) for c in cnt] if rn > 0 else None
+                ci = [int(round(float(x) * rn)) for x in gv] if rn > 0 else []
+                if rn > 0 and not (gn == rn and len(gv) == len(p) and sum(ci) == rn and min(ci) >= 0 and [float(Fraction(c, rn)) for c in ci] == [float(x) for x in gv]):
+                    ctx.violation(sub, site, "not-counts-over-n", "step %d: returned (%s, %s) is not a vector of counts divided by the sample size %d" % (i, gn, str(gv)[:80].replace("\n", " "), rn), case)
+                    return False
+                ok = gn == s["n"] == rn and exp is not None and [float(x) for x in gv] == exp
+                valid = ok and abs(sum(exp) - 1) < 1e-12 and all(e >= 0 for e in exp) and all(e == 0 for e, q in zip(exp, p) if q == 0) and sum(cnt) == rn
+            else:
+                ok = np.array_equal(np.asarray(gv), np.asarray(val)); valid = ok and all(int(sum(r)) == rn for r in np.asarray(gv).reshape(-1, len(p)))
+            if not ok:
+                ctx.violation(sub, site, "stream-dataflow" + feat,
+                              "step %d (%s seed argument): a returned value is not draw #%d of stream %s (kind 0 = global state seeded, 1 = Generator(MT19937(seed))) as the dataflow model predicts; got %s"
+                              % (i, sog[0], s["pos"], s["stream"], str(gv)[:80].replace("\n", " ")), case)
+                return False
+            if not valid:
+                ctx.violation(sub, site, "invalid-sample", "step %d: value %s is not counts/n / contains a zero-probability outcome (p=%s)" % (i, str(gv)[:80].replace("\n", " "), p), case)
+                return False
+    return True
+
+
+def cmp_final_state(ctx, sub, world, gens, oracle, case):
+    """the global numpy state and every shared generator must be where the model says they are after the history"""
+    # ---- final state of everything observable
+    gl = world["glob"]
+    if gl[0] == 0:
+        og = oracle.at((0, gl[1]), gl[2])
+        a, b = np.random.get_state(), og.get_state()
+        if not (np.array_equal(a[1], b[1]) and a[2:] == b[2:]):
+            ctx.violation(sub, "session:global-state", "state-perturbed", "after the history the global numpy state differs from the model's prediction (%s after %d requests)" % (gl[:2], gl[2]), case)
+            return False
+    for k, g in enumerate(gens):
+        ms = world["gens"][k]
+        og = oracle.at((1, ms[1]), ms[2])
+        a, b = g.bit_generator.state, og.bit_generator.state
+        if not (np.array_equal(a["state"]["key"], b["state"]["key"]) and a["state"]["pos"] == b["state"]["pos"]):
+            ctx.violation(sub, "session:shared-generator", "state-perturbed", "shared generator %d is not in the state the model predicts (%d requests served)" % (k, ms[2]), case)
+            return False
+    return True
+
+
 def chk_flow(ctx, case):
     from quara.qcircuit import data_generator as dg
     from quara.objects.multinomial_distribution import MultinomialDistribution as MD
@@ -763,62 +832,12 @@ def chk_flow(ctx, case):
         if impl[0] == "err":
             ctx.violation("flow", site, "unexpected-raise" + feat, "step %d (%s seed argument): implementation raised %s, model returns a value" % (i, sog[0], impl[1]), case)
             return
-        got = norm_rows(fn, impl[1])
-        if [len(r) for r in got] != [len(r) for r in rows]:
-            ctx.violation("flow", site, "shape", "step %d: output layout %s, model %s" % (i, [len(r) for r in got], [len(r) for r in rows]), case)
+        if not cmp_call_rows(ctx, "flow", site, i, sog, fn, impl[1], rows, pds, oracle, mdl, case, feat):
             return
-        # the oracle replays the predicted requests in the order the model says they are made (not the output order)
-        flat = [s for mr in rows for s in mr]
-        for s in sorted(flat, key=lambda x: x["pos"]):
-            s["val"] = oracle.draw(s["stream"], s["pos"], s["req"], pds)
-        for gr, mr in zip(got, rows):
-            for (gn, gv), s in zip(gr, mr):
-                val = s["val"]
-                rk, rn, rsz, rpd = s["req"]
-                p = pds[rpd]
-                if rk == 0:
-                    rs = [float(x) for x in val]
-                    exp = [int(x) for x in mdl.call("c14.gen_data", [len(rs)], [1e-13] + rs + [float(x) for x in p])]
-                    ex_ok = exact_sums([float(x) for x in p])
-                    bad = [j for j, (a, b) in enumerate(zip(gv, exp)) if a != b and (ex_ok or margin([float(x) for x in p], rs[j]) >= BAND)]
-                    ok = len(gv) == len(exp) and not bad and gn == s["n"]
-                    valid = all(0 <= d < len(p) and p[d] > 0 for d in gv)
-                elif rk == 1:
-                    cnt = [int(x) for x in val]
-                    exp = [float(Fraction(c, rn)) for c in cnt] if rn > 0 else None
-                    ci = [int(round(float(x) * rn)) for x in gv] if rn > 0 else []
-                    if rn > 0 and not (gn == rn and len(gv) == len(p) and sum(ci) == rn and min(ci) >= 0 and [float(Fraction(c, rn)) for c in ci] == [float(x) for x in gv]):
-                        ctx.violation("flow", site, "not-counts-over-n", "step %d: returned (%s, %s) is not a vector of counts divided by the sample size %d" % (i, gn, str(gv)[:80].replace("\n", " "), rn), case)
-                        return
-                    ok = gn == s["n"] == rn and exp is not None and [float(x) for x in gv] == exp
-                    valid = ok and abs(sum(exp) - 1) < 1e-12 and all(e >= 0 for e in exp) and all(e == 0 for e, q in zip(exp, p) if q == 0) and sum(cnt) == rn
-                else:
-                    ok = np.array_equal(np.asarray(gv), np.asarray(val)); valid = ok and all(int(sum(r)) == rn for r in np.asarray(gv).reshape(-1, len(p)))
-                if not ok:
-                    ctx.violation("flow", site, "stream-dataflow" + feat,
-                                  "step %d (%s seed argument): a returned value is not draw #%d of stream %s (kind 0 = global state seeded, 1 = Generator(MT19937(seed))) as the dataflow model predicts; got %s"
-                                  % (i, sog[0], s["pos"], s["stream"], str(gv)[:80].replace("\n", " ")), case)
-                    return
-                if not valid:
-                    ctx.violation("flow", site, "invalid-sample", "step %d: value %s is not counts/n / contains a zero-probability outcome (p=%s)" % (i, str(gv)[:80].replace("\n", " "), p), case)
-                    return
         if sog[0] in ("int", "npint") and not (t == "dg" and fn == "dataset"):
             seeded_calls.append((i, site, do_call, impl[1]))
-    # ---- final state of everything observable
-    gl = world["glob"]
-    if gl[0] == 0:
-        og = oracle.at((0, gl[1]), gl[2])
-        a, b = np.random.get_state(), og.get_state()
-        if not (np.array_equal(a[1], b[1]) and a[2:] == b[2:]):
-            ctx.violation("flow", "session:global-state", "state-perturbed", "after the history the global numpy state differs from the model's prediction (%s after %d requests)" % (gl[:2], gl[2]), case)
-            return
-    for k, g in enumerate(gens):
-        ms = world["gens"][k]
-        og = oracle.at((1, ms[1]), ms[2])
-        a, b = g.bit_generator.state, og.bit_generator.state
-        if not (np.array_equal(a["state"]["key"], b["state"]["key"]) and a["state"]["pos"] == b["state"]["pos"]):
-            ctx.violation("flow", "session:shared-generator", "state-perturbed", "shared generator %d is not in the state the model predicts (%d requests served)" % (k, ms[2]), case)
-            return
+    if not cmp_final_state(ctx, "flow", world, gens, oracle, case):
+        return
     # ---- direct reproducibility predicate: every int-seeded call, repeated after the whole history, returns the same value
     for i, site, fnc, first in seeded_calls:
         again = fnc()
@@ -907,6 +926,468 @@ def sub_flow(ctx):
         cases.append(gen_history(rng, hid)); hid += 1
     ctx.sample("flow", cases[3])
     ctx.run_cases("flow", chk_flow, cases)
+
+
+# ====================================================================== Experiment objects over a history
+# One Experiment object is USED OVER TIME: generate, replace an element of experiment.states / .povms / .gates / .mprocesses in
+# place (item assignment - no setter runs), assign whole lists / schedules through the setters, copy(), generate again ...
+# Model: Model/C14_ExpHist.v (contents = lists of element identities + schedules; a schedule denotes the circuit its items
+# refer to in the lists AS THEY ARE when the call is made).  Checked for every call of every history:
+#   * the object's actual lists / schedules are the ones the model says (heap correspondence)
+#   * the returned value is bit-identical to the draws the dataflow model names, sampled from the distribution of the
+#     CURRENT circuit (computed by a FRESH Experiment built from the current lists, itself compared with an independent
+#     Born-rule evaluation of the circuit)
+#   * no datum / no non-zero empirical frequency on an outcome whose Born-rule probability under the current circuit is 0
+#   * with an int / numpy-int seed the value equals that of the same call on the fresh Experiment (theorem
+#     C14_experiment_seeded_call_equals_fresh_experiment)
+XKIND = ["state", "povm", "gate", "mprocess"]
+XATTR = ["states", "povms", "gates", "mprocesses"]
+XERR = {15: "IndexError", 17: "IndexError", 31: "QuaraScheduleItemError", 32: "QuaraScheduleOrderError"}
+ZERO_P = 1e-12                      # Born-rule probabilities below this are exact zeros up to rounding (all others are >= 1e-3 here)
+_XCAT = {}
+
+
+def xcat():
+    """catalogue of 1-qubit objects; an element's identity is its index in the list of its kind"""
+    if _XCAT:
+        return _XCAT
+    o = objects()
+    with warnings.catch_warnings():
+        warnings.simplefilter("ignore")
+        from quara.objects.state_typical import generate_state_from_name
+        from quara.objects.povm_typical import generate_povm_from_name
+        from quara.objects.gate_typical import generate_gate_from_gate_name
+        from quara.objects.mprocess_typical import generate_mprocess_from_name
+        c = o["c"]
+        _XCAT[0] = [generate_state_from_name(c, n) for n in ("z0", "z1", "x0", "x1", "y0", "y1")] + [o["st_true"]]
+        _XCAT[1] = [generate_povm_from_name(n, c) for n in ("z", "x", "y")] + [o["povm_true"]]
+        _XCAT[2] = [generate_gate_from_gate_name(n, c) for n in ("identity", "x", "hadamard", "piover8", "y", "phase")]
+        _XCAT[3] = [generate_mprocess_from_name(c, n) for n in ("z-type1", "x-type1")]
+    return _XCAT
+
+
+def xident(k, obj):
+    for j, x in enumerate(xcat()[k]):
+        if x is obj:
+            return j
+    return -1
+
+
+def born(circ):
+    """independent evaluation of a circuit [(kind, element id), ...]: state vector through HS matrices, branches of an
+    instrument in row-major order (earlier measurement first), Born rule against the POVM vectors"""
+    cat = xcat()
+    branches = [np.array(cat[0][circ[0][1]].vec, dtype=np.float64)]
+    for k, e in circ[1:]:
+        x = cat[k][e]
+        if k == 2:
+            branches = [x.hs @ v for v in branches]
+        elif k == 3:
+            branches = [hs @ v for v in branches for hs in x.hss]
+        elif k == 1:
+            return np.array([float(np.dot(vec, v)) for v in branches for vec in x.vecs])
+    raise ValueError("circuit without povm")
+
+
+def xbuild(cont, sd=None):
+    """a fresh Experiment from contents (new Python lists every time: Experiment keeps the list objects it is given)"""
+    from quara.qcircuit.experiment import Experiment
+    cat = xcat()
+    with warnings.catch_warnings():
+        warnings.simplefilter("ignore")
+        return Experiment(schedules=[[(XKIND[k], i) for k, i in sch] for sch in cont["sched"]],
+                          states=[cat[0][e] for e in cont["lists"][0]], povms=[cat[1][e] for e in cont["lists"][1]],
+                          gates=[cat[2][e] for e in cont["lists"][2]], mprocesses=[cat[3][e] for e in cont["lists"][3]], seed_data=sd)
+
+
+def xactual(exp):
+    """the contents the real object has now, in the model's vocabulary"""
+    return {"lists": [[xident(k, x) for x in getattr(exp, XATTR[k])] for k in range(4)],
+            "sched": [[(XKIND.index(a), b) for a, b in sch] for sch in exp.schedules]}
+
+
+def enc_cont_py(cont):
+    out = []
+    for k in range(4):
+        out += enc_list(cont["lists"][k])
+    return out + enc_sched_py(cont["sched"])
+
+
+def enc_sched_py(sched):
+    return [len(sched)] + [v for sch in sched for v in [2 * len(sch)] + [x for it in sch for x in it]]
+
+
+def enc_xhop(h):
+    op = h["op"]
+    if op == "seed_global": return [0, h["z"]]
+    if op == "global_draw": return [1, h["n"]]
+    if op == "new_gen": return [2, h["z"]]
+    if op == "gen_draw": return [3, h["h"], h["n"]]
+    if op == "construct": return [10, 0 if h["sd"] is None else 1, h["sd"] or 0] + enc_cont_py(h["cont"])
+    if op == "copy": return [11, h["o"]]
+    if op == "set_item": return [12, h["o"], h["k"], h["i"], h["e"]]
+    if op == "set_list": return [13, h["o"], h["k"]] + enc_list(h["l"])
+    if op == "set_sched": return [14, h["o"]] + enc_sched_py(h["sched"])
+    if op == "reset_seed_data": return [15, h["o"], 0 if h["sd"] is None else 1, h["sd"] or 0]
+    if op == "calc": return [16, h["o"], h["sched"]]
+    if op == "call":
+        fn = h["fn"]
+        pre = [17, h["o"]] + enc_sog(h["sog"])
+        if fn == "data": return pre + [0, h["sched"], h["n"]]
+        if fn == "dataset": return pre + [1] + enc_list(h["ns"])
+        if fn == "empi_seq": return pre + [2, h["sched"]] + enc_list(h["ns"])
+        if fn == "empi_seqs": return pre + [3] + enc_ll(h["lns"])
+    raise ValueError(h)
+
+
+class _Rd:
+    def __init__(self, v): self.v = v; self.p = 0
+    def one(self): x = self.v[self.p]; self.p += 1; return x
+    def block(self): n = self.one(); out = self.v[self.p:self.p + n]; self.p += n; return list(out)
+    def pairs(self): n = self.one(); out = [(self.v[self.p + 2 * j], self.v[self.p + 2 * j + 1]) for j in range(n)]; self.p += 2 * n; return out
+    def cont(self):
+        lists = [self.block() for _ in range(4)]
+        return {"lists": lists, "sched": [self.pairs() for _ in range(self.one())]}
+    def res(self):
+        code, nrows = self.one(), self.one()
+        if code != 0:
+            return ("err", code)
+        rows = []
+        for _ in range(nrows):
+            row = []
+            for _ in range(self.one()):
+                n, kind, seed, p, rk, rn, rsz, rpd = self.v[self.p:self.p + 8]; self.p += 8
+                row.append({"n": n, "stream": (kind, seed), "pos": p, "req": (rk, rn, rsz, rpd)})
+            rows.append(row)
+        return ("ok", rows)
+
+
+def dec_xflow(vals):
+    rd = _Rd([int(x) for x in vals])
+    results = []
+    for _ in range(rd.one()):
+        tag = rd.one()
+        if tag == 0: results.append(("unit",))
+        elif tag == 1: results.append(("err", rd.one()))
+        elif tag == 2: results.append(("obj", rd.one()))
+        else:
+            cont = rd.cont()
+            table = [(rd.pairs() if rd.one() == 1 else None) for _ in range(rd.one())]
+            results.append(("out", cont, table, rd.res()))
+    g = tuple(rd.v[rd.p:rd.p + 3]); rd.p += 3
+    gens = []
+    for _ in range(rd.one()):
+        gens.append(tuple(rd.v[rd.p:rd.p + 3])); rd.p += 3
+    nobj = rd.one()
+    rd.p += 2 * nobj
+    conts = [rd.cont() for _ in range(nobj)]
+    if rd.p != len(rd.v):
+        raise RuntimeError("xflow reply not consumed: %d of %d" % (rd.p, len(rd.v)))
+    return results, {"glob": g, "gens": gens, "conts": conts}
+
+
+def chk_exp_hist(ctx, case):
+    from quara.qcircuit.experiment import QuaraScheduleItemError, QuaraScheduleOrderError
+    mdl = ctx.get_model()
+    cat = xcat()
+    hops = case["hops"]
+    pred, world = dec_xflow(mdl.call("c14.xflow", [len(hops)] + [v for h in hops for v in enc_xhop(h)]))
+    exps = []                         # real Experiment objects, index = model object id
+    last_mut = {}                     # object id -> kind of the last mutation since its last generation call
+    gens = []
+    oracle = Oracle()
+    errs = (ValueError, IndexError, AttributeError, TypeError, QuaraScheduleItemError, QuaraScheduleOrderError)
+
+    def heap_ok(i, o, cont):
+        act = xactual(exps[o])
+        if act != {"lists": [list(l) for l in cont["lists"]], "sched": [list(sc) for sc in cont["sched"]]}:
+            ctx.violation("exp_hist", "Experiment", "contents", "step %d: object %d holds %s, the model says %s" % (i, o, act, cont), case)
+            return False
+        return True
+
+    for i, h in enumerate(hops):
+        op = h["op"]
+        pr = pred[i]
+        if op == "seed_global":
+            np.random.seed(h["z"]); continue
+        if op == "new_gen":
+            gens.append(np.random.Generator(np.random.MT19937(h["z"]))); continue
+        if op in ("global_draw", "gen_draw"):
+            val = np.random.random(h["n"]) if op == "global_draw" else gens[h["h"]].random(h["n"])
+            s = pr[3][1][0][0]
+            if not np.array_equal(val, oracle.draw(s["stream"], s["pos"], s["req"], None)):
+                ctx.violation("exp_hist", "session:" + op, "state-perturbed", "step %d: an unrelated draw returns other numbers than the dataflow model predicts" % i, case)
+                return
+            continue
+        # ---- operations on Experiment objects that return nothing / a new object
+        if op in ("construct", "copy", "set_item", "set_list", "set_sched", "reset_seed_data"):
+            try:
+                with warnings.catch_warnings():
+                    warnings.simplefilter("ignore")
+                    if op == "construct":
+                        new = xbuild(h["cont"], h["sd"])
+                    elif op == "copy":
+                        new = exps[h["o"]].copy()
+                    elif op == "set_item":
+                        getattr(exps[h["o"]], XATTR[h["k"]])[h["i"]] = cat[h["k"]][h["e"]]
+                    elif op == "set_list":
+                        setattr(exps[h["o"]], XATTR[h["k"]], [cat[h["k"]][e] for e in h["l"]])
+                    elif op == "set_sched":
+                        exps[h["o"]].schedules = [[(XKIND[k], j) for k, j in sch] for sch in h["sched"]]
+                    else:
+                        exps[h["o"]].reset_seed_data(h["sd"])
+                impl = ("ok",)
+            except errs as e:
+                impl = ("err", type(e).__name__)
+            ctx.count("exp_hist", key=(case["id"], i), label="%s/%s" % (op, pr[0] if pr[0] != "err" else "err%d" % pr[1]), nontrivial=False)
+            if pr[0] == "err":
+                if impl[0] != "err" or impl[1] != XERR[pr[1]]:
+                    ctx.violation("exp_hist", "Experiment." + op, "error-kind", "step %d: model raises error %d (%s), implementation %s" % (i, pr[1], XERR[pr[1]], impl), case)
+                    return
+                continue
+            if impl[0] == "err":
+                ctx.violation("exp_hist", "Experiment." + op, "unexpected-raise", "step %d: implementation raised %s, the model accepts" % (i, impl[1]), case)
+                return
+            if op in ("construct", "copy"):
+                if pr[1] != len(exps):
+                    raise RuntimeError("object numbering: model %s, harness %d" % (pr, len(exps)))
+                exps.append(new)
+                last_mut[pr[1]] = "on-copy" if op == "copy" else ""
+            elif op != "reset_seed_data":
+                last_mut[h["o"]] = {"set_item": "after-in-place-replacement", "set_list": "after-list-assignment", "set_sched": "after-schedule-assignment"}[op]
+            continue
+        # ---- calc_prob_dist / generate_*
+        o = h["o"]
+        exp = exps[o]
+        feat = (":" + last_mut[o]) if last_mut.get(o) else ""
+        if op == "calc":
+            site = "Experiment.calc_prob_dist"
+            try:
+                with warnings.catch_warnings():
+                    warnings.simplefilter("ignore")
+                    impl = ("ok", np.array(exp.calc_prob_dist(h["sched"]), dtype=np.float64))
+            except errs as e:
+                impl = ("err", type(e).__name__)
+            ctx.count("exp_hist", key=(case["id"], i), label="calc/%s%s" % ("ok" if pr[0] == "out" else "err%d" % pr[1], feat), nontrivial=pr[0] == "out" and bool(feat))
+            if pr[0] == "err":
+                if impl[0] != "err" or impl[1] != XERR[pr[1]]:
+                    ctx.violation("exp_hist", site, "error-kind", "step %d: model raises error %d, implementation %s" % (i, pr[1], str(impl)[:100]), case)
+                    return
+                continue
+            if impl[0] == "err":
+                ctx.violation("exp_hist", site, "unexpected-raise" + feat, "step %d: implementation raised %s" % (i, impl[1]), case)
+                return
+            _, cont, table, _ = pr
+            if not heap_ok(i, o, cont):
+                return
+            circ = table[h["sched"]]
+            with warnings.catch_warnings():
+                warnings.simplefilter("ignore")
+                ref = np.array(xbuild(cont).calc_prob_dist(h["sched"]), dtype=np.float64)
+            b = born(circ)
+            if impl[1].shape != ref.shape or not np.array_equal(impl[1], ref) or float(np.max(np.abs(impl[1] - b))) > 1e-9:
+                ctx.violation("exp_hist", site, "not-current-circuit" + feat,
+                              "step %d: calc_prob_dist(%d) = %s; the schedule now denotes the circuit %s whose distribution is %s (fresh Experiment: %s)"
+                              % (i, h["sched"], impl[1], [(XKIND[k], e) for k, e in circ], np.round(b, 12), ref), case)
+                return
+            continue
+        # ---- a generate_* call
+        fn, sog = h["fn"], h["sog"]
+        site = "Experiment." + {"data": "generate_data", "dataset": "generate_dataset", "empi_seq": "generate_empi_dist_sequence", "empi_seqs": "generate_empi_dists_sequence"}[fn]
+        _, cont, table, (st, rows) = pr
+        if not heap_ok(i, o, cont):
+            return
+        hh = dict(h, target="ex")
+        do_call = make_call(hh, exp, None, gens, None)
+        try:
+            impl = ("ok", do_call())
+        except errs as e:
+            impl = ("err", type(e).__name__)
+        ctx.count("exp_hist", key=(case["id"], i), label="%s/%s/%s%s" % (fn, sog[0], st if st == "ok" else "err%s" % rows, feat),
+                  nontrivial=(st == "ok" and bool(feat)))
+        if sog[0] == "npint":
+            feat += ":numpy-integer-seed"
+        if st == "err":
+            if impl[0] != "err" or impl[1] != FLOW_ERR[rows]:
+                ctx.violation("exp_hist", site, "error-kind", "step %d: model raises error %s (%s), implementation %s" % (i, rows, FLOW_ERR[rows], str(impl)[:150]), case)
+                return
+            last_mut[o] = ""
+            continue
+        if impl[0] == "err":
+            ctx.violation("exp_hist", site, "unexpected-raise" + feat, "step %d (%s seed argument): implementation raised %s, model returns a value" % (i, sog[0], impl[1]), case)
+            return
+        # the distribution of every schedule's CURRENT circuit: a fresh Experiment built from the current lists, cross-checked
+        # with the independent Born-rule evaluation
+        fresh = xbuild(cont)
+        with warnings.catch_warnings():
+            warnings.simplefilter("ignore")
+            pds = [np.array(fresh.calc_prob_dist(j), dtype=np.float64) for j in range(len(cont["sched"]))]
+        borns = [born(c) for c in table]
+        for j, (p, b) in enumerate(zip(pds, borns)):
+            if p.shape != b.shape or float(np.max(np.abs(p - b))) > 1e-9:
+                ctx.violation("exp_hist", "Experiment.calc_prob_dist", "fresh-experiment-vs-born-rule",
+                              "step %d: a fresh Experiment gives %s for circuit %s, the Born rule %s" % (i, p, [(XKIND[k], e) for k, e in table[j]], np.round(b, 12)), case)
+                return
+        # (1) no outcome of probability 0 under the CURRENT circuit (Born rule), whatever the stream
+        got = norm_rows(fn, impl[1])
+        for gr, mr in zip(got, rows):
+            for (gn, gv), s in zip(gr, mr):
+                b = borns[s["req"][3]]
+                if s["req"][0] == 0:
+                    bad = [d for d in gv if not (0 <= d < len(b)) or b[d] < ZERO_P]
+                else:
+                    bad = [x for x in range(min(len(gv), len(b))) if b[x] < ZERO_P and gv[x] != 0] if len(gv) == len(b) else ["shape"]
+                if bad:
+                    ctx.violation("exp_hist", site, "zero-probability-outcome-under-current-circuit" + feat,
+                                  "step %d: schedule %d now denotes the circuit %s with outcome probabilities %s, but the generated value %s contains outcome(s) %s of probability 0"
+                                  % (i, s["req"][3], [(XKIND[k], e) for k, e in table[s["req"][3]]], np.round(b, 12), str(gv)[:80].replace("\n", " "), bad[:5]), case)
+                    return
+        # (2) bit-identical to the draws the dataflow model names, sampled from the current circuit's distribution
+        if not cmp_call_rows(ctx, "exp_hist", site, i, sog, fn, impl[1], rows, pds, oracle, mdl, case, feat):
+            return
+        # (3) seeded: equal to the same call on a fresh Experiment built from the current lists
+        if sog[0] in ("int", "npint"):
+            again = make_call(hh, fresh, None, gens, None)()
+            if repr(again) != repr(impl[1]):
+                ctx.violation("exp_hist", site, "seeded-output-differs-from-fresh-experiment" + feat,
+                              "step %d: seed %s: the value differs from the one a fresh Experiment built from the object's current lists returns for the same call" % (i, sog[1]), case)
+                return
+        last_mut[o] = ""
+    # ---- final state: random state and the contents of every object
+    if not cmp_final_state(ctx, "exp_hist", world, gens, oracle, case):
+        return
+    for o, cont in enumerate(world["conts"]):
+        if o < len(exps) and not heap_ok(len(hops), o, cont):
+            return
+    ctx.dist["exp_hist:histories"] = ctx.dist.get("exp_hist:histories", 0) + 1
+
+
+def gen_xcont(rng):
+    ncat = {k: len(xcat()[k]) for k in range(4)}
+    lists = [[rng.randrange(ncat[0]) for _ in range(rng.randint(1, 2))], [rng.randrange(ncat[1]) for _ in range(rng.randint(1, 3))],
+             [rng.randrange(ncat[2]) for _ in range(rng.randint(0, 2))], [rng.randrange(ncat[3]) for _ in range(rng.randint(0, 1))]]
+    return {"lists": lists, "sched": gen_xsched(rng, lists, rng.randint(2, 4))}
+
+
+def gen_xsched(rng, lists, S):
+    out = []
+    for _ in range(S):
+        sch = [(0, rng.randrange(len(lists[0])))]
+        used_mp = False
+        for _ in range(rng.choice([0, 0, 1, 1, 2])):
+            if lists[3] and not used_mp and rng.random() < 0.35:
+                sch.append((3, rng.randrange(len(lists[3])))); used_mp = True
+            elif lists[2]:
+                sch.append((2, rng.randrange(len(lists[2]))))
+        sch.append((1, rng.randrange(len(lists[1]))))
+        out.append(sch)
+    return out
+
+
+def gen_xhistory(rng, hid):
+    """one or two Experiment objects used over time"""
+    import copy as _copy
+    ncat = {k: len(xcat()[k]) for k in range(4)}
+    hops = [{"op": "seed_global", "z": rng.randint(0, 2 ** 31)}]
+    ngen = rng.randint(1, 2)
+    for z in rng.sample(range(1, 10 ** 6), ngen):
+        hops.append({"op": "new_gen", "z": z})
+    int_seeds = rng.sample(range(10 ** 6, 2 * 10 ** 6), 2)
+    conts = []                                   # mirror of the model's contents (only to generate in-range operations)
+
+    def add_construct():
+        c = gen_xcont(rng)
+        hops.append({"op": "construct", "cont": _copy.deepcopy(c), "sd": rng.choice([None, None, rng.randint(0, 10 ** 6)])}); conts.append(c)
+
+    def gen_call(o, sched=None, seed=None):
+        c = conts[o]; S = len(c["sched"])
+        v = rng.random()
+        sog = ["none"] if v < 0.2 else (["int", rng.choice(int_seeds)] if v < 0.65 else (["gen", rng.randrange(ngen)] if v < 0.85 else ["npint", rng.choice(int_seeds)]))
+        if seed is not None:
+            sog = ["int", seed]
+        nn = lambda: rng.choice([1, 2, 7, 30, 100])
+        fn = rng.choice(["data", "dataset", "empi_seq", "empi_seqs"])
+        h = {"op": "call", "o": o, "fn": fn, "sog": sog}
+        sc = sched if sched is not None else rng.choice(list(range(S)) + ([S] if rng.random() < 0.15 else []))
+        if fn == "data": h.update(sched=sc, n=rng.choice([1, 5, 20, 50, 0, -1] if sched is None else [5, 20, 50]))
+        elif fn == "dataset": h.update(ns=[rng.choice([0, 1, 5, 20, 50]) for _ in range(S if rng.random() < 0.9 or sched is not None else S - 1)])
+        elif fn == "empi_seq": h.update(sched=sc, ns=[nn() for _ in range(rng.randint(0 if sched is None else 1, 3))])
+        else: h.update(lns=[[nn() for _ in range(S if rng.random() < 0.9 or sched is not None else S + 1)] for _ in range(rng.randint(0 if sched is None else 1, 2))])
+        return h
+
+    def referenced(c):
+        return sorted(set(it for sch in c["sched"] for it in sch))
+
+    def gen_set_item(o, target=None):
+        c = conts[o]
+        if target is None:
+            ref = referenced(c)
+            if rng.random() < 0.75 and ref:
+                k, i = rng.choice(ref)
+            else:
+                k = rng.choice([k for k in range(4) if c["lists"][k]]); i = rng.randrange(len(c["lists"][k]))
+        else:
+            k, i = target
+        if target is None and rng.random() < 0.05:
+            return {"op": "set_item", "o": o, "k": k, "i": len(c["lists"][k]), "e": rng.randrange(ncat[k])}      # IndexError, nothing changes
+        e = rng.choice([x for x in range(ncat[k]) if x != c["lists"][k][i]])
+        c["lists"][k][i] = e
+        return {"op": "set_item", "o": o, "k": k, "i": i, "e": e}
+
+    add_construct()
+    for _ in range(rng.randint(6, 12)):
+        u = rng.random()
+        o = rng.randrange(len(conts))
+        c = conts[o]
+        if u < 0.30:
+            hops.append(gen_call(o))
+        elif u < 0.50:
+            hops.append(gen_set_item(o))
+        elif u < 0.62:
+            # the sharpest pattern: use a schedule, replace one of ITS elements in place, use the same schedule again (same seed)
+            sc = rng.randrange(len(c["sched"])); seed = rng.choice(int_seeds)
+            first = gen_call(o, sched=sc, seed=seed) if rng.random() < 0.7 else {"op": "calc", "o": o, "sched": sc}
+            hops.append(first)
+            hops.append(gen_set_item(o, target=rng.choice(c["sched"][sc])))
+            hops.append(gen_call(o, sched=sc, seed=seed) if rng.random() < 0.8 else {"op": "calc", "o": o, "sched": sc})
+        elif u < 0.70:
+            k = rng.randrange(4)
+            need = max([i + 1 for kk, i in referenced(c) if kk == k] + [0])
+            ln = max(0, need + rng.choice([0, 0, 1, -1]))
+            l = [rng.randrange(ncat[k]) for _ in range(ln)]
+            if ln >= need:
+                c["lists"][k] = list(l)
+            hops.append({"op": "set_list", "o": o, "k": k, "l": l})
+        elif u < 0.78:
+            sched = gen_xsched(rng, c["lists"], rng.randint(1, 4))
+            w = rng.random()
+            if w < 0.12:
+                k, i = sched[0][-1]; sched[0][-1] = (k, len(c["lists"][k]))             # index out of range -> error 31
+            elif w < 0.2:
+                sched[-1] = sched[-1][1:]                                              # does not start with a state -> error 32
+            else:
+                c["sched"] = _copy.deepcopy(sched)
+            hops.append({"op": "set_sched", "o": o, "sched": sched})
+        elif u < 0.85:
+            hops.append({"op": "copy", "o": o}); conts.append(_copy.deepcopy(c))
+        elif u < 0.90:
+            hops.append({"op": "calc", "o": o, "sched": rng.choice(list(range(len(c["sched"]))) + [len(c["sched"])])})
+        elif u < 0.93 and len(conts) < 3:
+            add_construct()
+        elif u < 0.96:
+            hops.append({"op": "reset_seed_data", "o": o, "sd": rng.choice([None, 0, rng.randint(1, 10 ** 6)])})
+        elif u < 0.98:
+            hops.append({"op": "global_draw", "n": rng.randint(1, 4)})
+        else:
+            hops.append({"op": "gen_draw", "h": rng.randrange(ngen), "n": rng.randint(1, 4)})
+    return {"id": hid, "hops": hops}
+
+
+def sub_exp_hist(ctx):
+    rng = ctx.rng
+    cases = [gen_xhistory(rng, hid) for hid in range(ctx.n(70, 700))]
+    ctx.sample("exp_hist", cases[0])
+    ctx.run_cases("exp_hist", chk_exp_hist, cases)
 
 
 # ====================================================================== seed types (direct property predicates)
@@ -1012,8 +1493,8 @@ def sub_chi2(ctx):
 
 
 SUBS = [("rn2data", sub_rn2data), ("fallback", sub_fallback), ("gen_data", sub_gen_data), ("empi_seq", sub_empi_seq),
-        ("flow", sub_flow), ("seed_types", sub_seed_types), ("chi2", sub_chi2)]
-FNS = {"rn2data": chk_rn2data, "fallback": chk_fallback, "gen_data": chk_gen_data, "empi_seq": chk_empi_seq, "flow": chk_flow,
+        ("flow", sub_flow), ("exp_hist", sub_exp_hist), ("seed_types", sub_seed_types), ("chi2", sub_chi2)]
+FNS = {"rn2data": chk_rn2data, "fallback": chk_fallback, "gen_data": chk_gen_data, "empi_seq": chk_empi_seq, "flow": chk_flow, "exp_hist": chk_exp_hist,
        "seed_types": chk_seed_types, "chi2": chk_chi2}
 
 
@@ -1024,8 +1505,12 @@ def run(ctx):
                 "data over {-1..m} up to length 3 (4 thorough) x 25 request patterns, random long data and a malformed stream; session histories of "
                 "4-9 steps mixing np.random.seed, unrelated global / shared-generator draws, constructors with seed_data, reset_seed and calls with "
                 "None / int / numpy-integer / shared-Generator seeds through data_generator, Experiment, MultinomialDistribution and the four tomography classes "
-                "(true objects generic, testers with unequal outcome counts). non-trivial: decision outside the ambiguity band / a vector with a zero "
-                "entry (rn2data), >= 2 members or an error branch (empi_seq), a call that is not the first step (flow); distinct = distinct input record")
+                "(true objects generic, testers with unequal outcome counts); histories of 6-12 operations on one to three Experiment objects "
+                "(1-qubit catalogue of 7 states / 4 POVMs / 6 gates / 2 instruments, many circuits deterministic so that exact zeros occur): "
+                "construct, generate_* with every seed kind, calc_prob_dist, in-place element replacement (3 of 4 aimed at an element a schedule "
+                "uses; the pattern use - replace - use again with the same seed forced in ~1/8 of the steps), list / schedule assignment incl. "
+                "rejected ones, copy(), reset_seed_data. non-trivial: decision outside the ambiguity band / a vector with a zero "
+                "entry (rn2data), >= 2 members or an error branch (empi_seq), a call that is not the first step (flow), a successful call / calc_prob_dist made after a mutation or on a copy (exp_hist); distinct = distinct input record")
     # _random_number_to_data is additionally REGENERATED from /repo's source by the translator on every run and proved equal to the
     # model rn2data (coq/gen/C14_Equiv.v), so the inversion-sampling theorems hold of the Python text itself
     flow.standard_run(ctx, SUBS, regens=[("random_number", "C14_Equiv")])
